@@ -27,6 +27,10 @@ const (
 	findPadded   = "rrsig-ecdsa-padded"  // DESIGN §4 #8
 	findNXT      = "rrsig-nxt-case"      // DESIGN §4 #9
 	findRootWild = "rrsig-root-wildcard" // DESIGN §4 #10
+	// round 7 (remarks of the breakers about the unchanged library)
+	findDDD        = "rrsig-ddd-letters"      // letters written as \DDD are not folded / not recognised as letters
+	findMixedOwner = "rrsig-mixed-case-rrset" // records of one RRset spelling the owner in different letter case
+	findTag0       = "rrsig-keytag-zero"      // Sign refuses a key whose tag is 0
 )
 
 var algs = []uint8{ref.AlgRSASHA1, ref.AlgRSASHA1NSEC3, ref.AlgRSASHA256, ref.AlgRSASHA512, ref.AlgECDSAP256, ref.AlgECDSAP384, ref.AlgEd25519}
@@ -55,6 +59,10 @@ type sigCase struct {
 	ShortS        bool     // ECDSA: the inception time is searched (upwards from Incep) for a digest that gives an s with two leading zero octets
 	SigSample     []int    // sampled signature bit positions for slow algorithms
 	KeySample     []int    // sampled key bit positions for the re-tagged key alteration
+	// round 7
+	Spell      spelling // letters of the names handed to the library written as \DDD escapes (per site a position mask)
+	MixedOwner bool     // set by the generator: records may spell the owner in different letter case, and the
+	// invariance "letter case of the owner changed in ONE record" is evaluated
 }
 
 func privFor(alg uint8, slot int, seed []byte) (crypto.PrivateKey, error) {
@@ -248,7 +256,7 @@ func (c sigCase) valid() bool {
 	}
 	o := c.Set[0]
 	for _, r := range c.Set {
-		if r.Type != o.Type || r.Class != o.Class || !r.Name.Equal(o.Name) || r.NoRdata {
+		if r.Type != o.Type || r.Class != o.Class || !equalFold(r.Name, o.Name) || r.NoRdata {
 			return false
 		}
 	}
@@ -273,10 +281,12 @@ func checkSign(c sigCase) (err error) {
 	typ, class := c.Set[0].Type, c.Set[0].Class
 	keyOct, _ := ref.KeyOctets(c.Alg, ref.PublicOf(priv))
 	base := world{Set: cloneSet(c.Set), SigOwner: owner.Clone(), SigClass: class, KeyOwner: c.KeyOwner.Clone(), KeyClass: class,
-		KeyFlags: c.KeyFlags, KeyProto: 3, KeyAlg: c.Alg, KeyOctets: keyOct}
+		KeyFlags: c.KeyFlags, KeyProto: 3, KeyAlg: c.Alg, KeyOctets: keyOct, Spell: c.Spell}
+	// a key tag of 0 is a tag like any other (RFC 4034 appendix B: one key in 65536 has it)
 	tag := ref.KeyTag(base.keyRdata())
-	if tag == 0 {
-		return nil // Sign refuses key tag 0 by contract
+	mixed := false
+	for _, r := range c.Set {
+		mixed = mixed || !r.Name.Equal(owner)
 	}
 	// precondition (established by C01): the library re-packs the decoded records to the same octets
 	libSet, lerr := base.libSet()
@@ -300,13 +310,24 @@ func checkSign(c sigCase) (err error) {
 	}
 	classes := []string{fmt.Sprintf("alg=%d", c.Alg), "type=" + typeName(typ), fmt.Sprintf("records=%d", len(c.Set)), fmt.Sprintf("distinct=%d", len(distinct)),
 		fmt.Sprintf("wildcard=%v", wild), fmt.Sprintf("rdata-names=%v", names), fmt.Sprintf("lowertype=%v", lowerTypes[typ]), fmt.Sprintf("rootzone=%v", len(c.Signer) == 0),
-		fmt.Sprintf("origttl-explicit=%v", c.OrigTTL != 0), fmt.Sprintf("rdata-embeds-another-record=%v", c.EmbeddedImage)}
+		fmt.Sprintf("origttl-explicit=%v", c.OrigTTL != 0), fmt.Sprintf("rdata-embeds-another-record=%v", c.EmbeddedImage),
+		fmt.Sprintf("keytag-zero=%v", tag == 0), fmt.Sprintf("owner-case-differs-between-records=%v", mixed), fmt.Sprintf("letters-as-ddd=%v", c.Spell.any())}
+	if c.Spell.any() {
+		up := spelledLetters(owner, c.Spell.Owner, true) || spelledLetters(c.SignerAs, c.Spell.Signer, true)
+		for _, r := range c.Set {
+			if lowerTypes[typ] {
+				x := cloneRec(r)
+				mapNames(&x, func(n wm.Name) wm.Name { up = up || spelledLetters(n, c.Spell.Rdata, true); return n })
+			}
+		}
+		classes = append(classes, fmt.Sprintf("upper-case-letter-as-ddd-in-signed-data=%v", up))
+	}
 	if rk, ok := priv.(*rsa.PrivateKey); ok {
 		classes = append(classes, fmt.Sprintf("rsa-modulus-octets=%d", rk.Size()), fmt.Sprintf("rsa-exponent-octets=%d", (bits.Len(uint(rk.E))+7)/8))
 	}
 	w0, _ := wm.EncodeRR(c.Set[0])
 	defer func() {
-		pbt.Note(append([]byte(fmt.Sprintf("%d|%d|%x|%d|%d|%d|%d|", c.Alg, c.KeySlot, c.KeySeed, len(c.Set), c.OrigTTL, c.Incep, c.Expir)), w0...),
+		pbt.Note(append([]byte(fmt.Sprintf("%d|%d|%x|%d|%d|%d|%d|%v|", c.Alg, c.KeySlot, c.KeySeed, len(c.Set), c.OrigTTL, c.Incep, c.Expir, c.Spell)), w0...),
 			len(c.Set) >= 2 || names || wild, classes...)
 	}()
 
@@ -359,9 +380,9 @@ func checkSign(c sigCase) (err error) {
 	}
 
 	// (1) the library signs
-	sig := &dns.RRSIG{Inception: c.Incep, Expiration: c.Expir, KeyTag: tag, SignerName: wm.EscName(c.SignerAs), Algorithm: c.Alg, OrigTtl: c.OrigTTL}
+	sig := &dns.RRSIG{Inception: c.Incep, Expiration: c.Expir, KeyTag: tag, SignerName: spellName(c.SignerAs, c.Spell.Signer), Algorithm: c.Alg, OrigTtl: c.OrigTTL}
 	if serr := sig.Sign(ref.RandCheckedSigner{Inner: signer}, libSet); serr != nil { // the signer insists on a usable entropy source
-		return pbt.Errf("RRSIG.Sign failed: %v (owner %s type %s alg %d, %d records)", serr, wm.EscName(owner), typeName(typ), c.Alg, len(c.Set))
+		return pbt.Errf("RRSIG.Sign failed: %v (owner %s type %s alg %d key tag %d, %d records)", serr, libSet[0].Header().Name, typeName(typ), c.Alg, tag, len(c.Set))
 	}
 	raw, derr := base64.StdEncoding.DecodeString(sig.Signature)
 	if derr != nil {
@@ -391,16 +412,21 @@ func checkSign(c sigCase) (err error) {
 	signed.SigTTL = sig.OrigTtl
 	signed.Signature = raw
 	if rerr := signed.refVerify(); rerr != nil {
-		return pbt.Errf("the reference rejects the signature made by RRSIG.Sign: %v (owner %s type %s alg %d labels %d origttl %d, %d records, %d distinct)",
-			rerr, wm.EscName(owner), typeName(typ), c.Alg, sig.Labels, sig.OrigTtl, len(c.Set), len(distinct))
+		return pbt.Errf("the reference rejects the signature made by RRSIG.Sign: %v (owner %s as handed to Sign %s, signer %s, type %s alg %d labels %d origttl %d, %d records, %d distinct)",
+			rerr, wm.EscName(owner), libSet[0].Header().Name, sig.SignerName, typeName(typ), c.Alg, sig.Labels, sig.OrigTtl, len(c.Set), len(distinct))
 	}
 	if verr := sig.Verify(signed.libKey(), libSet); verr != nil {
-		return pbt.Errf("RRSIG.Verify of the signature just made by Sign failed: %v", verr)
+		var on []string
+		for _, rr := range libSet {
+			on = append(on, rr.Header().Name)
+		}
+		return pbt.Errf("RRSIG.Verify of the signature just made by Sign failed: %v (owners as handed over %q, signer %s, key owner %s, key tag %d, type %s alg %d)",
+			verr, on, sig.SignerName, signed.libKey().Hdr.Name, tag, typeName(typ), c.Alg)
 	}
 
 	// a signer that fails: Sign must say so - an RRSIG that Sign reports as made has to verify
 	{
-		fs := &dns.RRSIG{Inception: c.Incep, Expiration: c.Expir, KeyTag: tag, SignerName: wm.EscName(c.SignerAs), Algorithm: c.Alg, OrigTtl: c.OrigTTL}
+		fs := &dns.RRSIG{Inception: c.Incep, Expiration: c.Expir, KeyTag: tag, SignerName: spellName(c.SignerAs, c.Spell.Signer), Algorithm: c.Alg, OrigTtl: c.OrigTTL}
 		if ferr := fs.Sign(ref.FailingSigner{Pub: ref.PublicOf(priv)}, libSet); ferr == nil {
 			if verr := fs.Verify(signed.libKey(), libSet); verr != nil {
 				return pbt.Errf("RRSIG.Sign reported success although the crypto.Signer returned an error; the RRSIG it left (signature %q) does not verify: %v", fs.Signature, verr)
@@ -458,6 +484,12 @@ func checkSign(c sigCase) (err error) {
 		}
 		inv = append(inv, variant{b.tag + ": current TTLs changed", v})
 		if hasLetter(owner) {
+			if c.MixedOwner && n >= 2 && c.Spell.Owner == 0 {
+				v = b.w.clone()
+				k := ((c.Dup % n) + n) % n
+				v.Set[k].Name = invertCase(v.Set[k].Name)
+				inv = append(inv, variant{b.tag + ": owner letter case inverted in one record of the RRset", v})
+			}
 			v = b.w.clone()
 			for i := range v.Set {
 				v.Set[i].Name = invertCase(v.Set[i].Name)
@@ -505,7 +537,13 @@ func checkSign(c sigCase) (err error) {
 			return pbt.Errf("harness: the reference rejects the invariance variant %q: %v", v.name, rerr)
 		}
 		if verr := v.w.libVerify(); verr != nil {
-			return pbt.Errf("RRSIG.Verify fails after %q: %v (owner %s type %s alg %d labels %d)", v.name, verr, wm.EscName(owner), typeName(typ), c.Alg, v.w.F.Labels)
+			vs, _ := v.w.libSet()
+			var on []string
+			for _, rr := range vs {
+				on = append(on, rr.Header().Name)
+			}
+			return pbt.Errf("RRSIG.Verify fails after %q: %v (owners as handed over %q, RRSIG owner %s signer %s, key owner %s, type %s alg %d labels %d)", v.name, verr, on,
+				v.w.libSig().Hdr.Name, v.w.libSig().SignerName, v.w.libKey().Hdr.Name, typeName(typ), c.Alg, v.w.F.Labels)
 		}
 		pbt.Class("invariance")
 	}
@@ -1123,7 +1161,83 @@ func genSign(t *rapid.T) sigCase {
 	}
 	c.SigSample = rapid.SliceOfN(rapid.IntRange(0, 1<<16), 96, 96).Draw(t, "sigsample")
 	c.KeySample = rapid.SliceOfN(rapid.IntRange(0, 1<<16), 12, 12).Draw(t, "keysample")
+
+	// round 7. (a) Letters written as \DDD escapes ("\065" is "A") in the names handed to the library:
+	// the owner of the records, the owner of the RRSIG (Verify side; Sign copies it from the first
+	// record), the signer name, the DNSKEY owner and the names in the RDATA, each with its own drawn
+	// position mask - so the same name reaches Sign / Verify in different but equivalent spellings.
+	if rapid.IntRange(0, 3).Draw(t, "ddd") == 0 {
+		m := func(label string) uint64 {
+			switch rapid.IntRange(0, 3).Draw(t, label+"k") {
+			case 0:
+				return 0
+			case 1:
+				return ^uint64(0) // every letter
+			}
+			return rapid.Uint64().Draw(t, label)
+		}
+		sp := spelling{Owner: m("dddowner"), SigOwner: m("dddsigowner"), Signer: m("dddsigner"), KeyOwner: m("dddkeyowner"), Rdata: m("dddrdata")}
+		if pbt.Known(findDDD) {
+			// the class of the finding: a letter written as \DDD in a name that the library folds or
+			// compares as text - owner, RRSIG owner, signer, key owner, RDATA names of the 6.2 types.
+			// (Names in the RDATA of the other types enter the signed data as they are: still spelled.)
+			if sp.Owner|sp.SigOwner|sp.Signer|sp.KeyOwner != 0 || sp.Rdata != 0 && lowerTypes[typ] {
+				pbt.Excluded(findDDD)
+			}
+			sp.Owner, sp.SigOwner, sp.Signer, sp.KeyOwner = 0, 0, 0, 0
+			if lowerTypes[typ] {
+				sp.Rdata = 0
+			}
+		}
+		c.Spell = sp
+	}
+	// (b) The records of one RRset spell the owner in different letter case (an RRset is defined by
+	// the owner NAME; RFC 4343: names compare without regard to case). Not combined with an owner
+	// spelled in \DDD: "\065." and "\097." in one set is class (a) and (b) at once.
+	if len(c.Set) >= 2 && hasLetter(owner) && c.Spell.Owner == 0 && rapid.IntRange(0, 2).Draw(t, "mixedowner") == 0 {
+		if pbt.Known(findMixedOwner) {
+			pbt.Excluded(findMixedOwner)
+		} else {
+			c.MixedOwner = true
+			for i := range c.Set {
+				if rapid.Bool().Draw(t, "ownercase") {
+					c.Set[i].Name = gen.FlipCase(t, c.Set[i].Name)
+				}
+			}
+		}
+	}
+	// (c) A key whose tag is 0: the flags field is the first 16-bit word of the DNSKEY RDATA, so for
+	// about half of the keys some flags value with the ZONE bit makes the RFC 4034 appendix B sum 0.
+	if rapid.IntRange(0, 7).Draw(t, "tagzero") == 0 {
+		if priv, err := privFor(c.Alg, c.KeySlot, c.KeySeed); err == nil {
+			if oct, err := ref.KeyOctets(c.Alg, ref.PublicOf(priv)); err == nil {
+				if f, ok := flagsForTagZero(c.Alg, oct); ok {
+					if pbt.Known(findTag0) {
+						pbt.Excluded(findTag0)
+					} else {
+						c.KeyFlags = f
+					}
+				}
+			}
+		}
+	}
 	return c
+}
+
+// flagsForTagZero looks for a flags value with the ZONE bit for which the DNSKEY (protocol 3) has key
+// tag 0 (there is at most a handful of them per key, and the ZONE bit is set in about half).
+func flagsForTagZero(alg uint8, keyOct []byte) (uint16, bool) {
+	t0 := ref.KeyTag(ref.DNSKEYRdata(0x0100, 3, alg, keyOct))
+	// the tag is (sum + carry) mod 2^16 and the flags enter the sum as they are: try the flags that
+	// cancel t0, and their neighbours for the carry
+	for d := 0; d < 4; d++ {
+		for _, f := range []uint16{0x0100 - t0 + uint16(d), 0x0100 - t0 - uint16(d)} {
+			if f&0x0100 != 0 && ref.KeyTag(ref.DNSKEYRdata(f, 3, alg, keyOct)) == 0 {
+				return f, true
+			}
+		}
+	}
+	return 0, false
 }
 
 func init() {
@@ -1163,5 +1277,42 @@ func init() {
 		c.Alg, c.Pad = ref.AlgECDSAP256, true
 		c.Set = []wm.Rec{a(name("www", "example", "org"), 192, 0, 2, 1), a(name("www", "example", "org"), 192, 0, 2, 2)}
 		return checkSign(c)
+	})
+	// round 7, remark 1: owner "\065.example.org." (A record) and MX "\077ail.Example.org." - the letters
+	// written as \DDD reach the signed data unfolded
+	pbt.Probe(findDDD, func() error {
+		c := base
+		c.Set = []wm.Rec{a(name("A", "example", "org"), 192, 0, 2, 1)}
+		c.Spell = spelling{Owner: 1} // first octet of the owner: \065.example.org.
+		if err := checkSign(c); err != nil {
+			return err
+		}
+		c = base
+		c.Set = []wm.Rec{{Name: name("mx", "example", "org"), Type: wm.TMX, Class: 1, TTL: 300,
+			Fields: []wm.Field{{K: wm.U16, U: 10}, {K: wm.NameC, N: name("Mail", "Example", "org")}}}}
+		c.Spell = spelling{Rdata: 1} // \077ail.Example.org.
+		return checkSign(c)
+	})
+	// round 7, remark 3: A.example.org. and a.example.org. in one RRset
+	pbt.Probe(findMixedOwner, func() error {
+		c := base
+		c.Set = []wm.Rec{a(name("A", "example", "org"), 192, 0, 2, 1), a(name("a", "example", "org"), 192, 0, 2, 2)}
+		c.MixedOwner = true
+		return checkSign(c)
+	})
+	// round 7, remark 4: a key whose tag is 0 (Ed25519 keys from the seeds 1, 2, ...: the first one for
+	// which a flags value with the ZONE bit gives tag 0)
+	pbt.Probe(findTag0, func() error {
+		c := base
+		c.Set = []wm.Rec{a(name("www", "example", "org"), 192, 0, 2, 1)}
+		for seed := byte(1); seed < 64; seed++ {
+			c.KeySeed = []byte{seed}
+			oct, _ := ref.KeyOctets(c.Alg, ref.PublicOf(ref.Ed25519KeyFromSeed(c.KeySeed)))
+			if f, ok := flagsForTagZero(c.Alg, oct); ok {
+				c.KeyFlags = f
+				return checkSign(c)
+			}
+		}
+		return nil
 	})
 }
